@@ -45,6 +45,10 @@ CLAIMED = {
   "Authorization as a ghost permission, discharged deductively over the real server code: every protected operation (all IDbms methods of DbmsLocal outside the allowed set, and the package-level Token/kill/connections) requires the permission 'authz', which no command handler can establish; all 40 protocol command handlers and the session helpers are symbolically executed (calls by contract, everything else havoced) and every call they make is shown not to need the permission, i.e. they reach protected state only through ss.sc.dbms, where every refused DbmsUnauth method is proved never to return normally (and to call nothing); cmdAuth leaves the connection wrapped unless authentication succeeded; the nonce is single-use (cleared on every attempt); AuthUser rejects the empty nonce.",
   "Permission mode ('nosafety'): only permission preconditions, post-conditions and refusals are obligations; run-time safety of the handlers is not checked here. Assumed: the DbmsLocal methods and Token/kill/connections are classified by hand from the property statement (allowed: Auth, Nonce, SessionId, Libraries, LibGet, end of session); DbmsUnauth.Use/Unuse/Close delegate but no protocol command reaches them (an interface-level precondition keeps it so); AuthToken (token single use), crypto/rand, sha1, the users table lookup and the rate limiter are trusted; mutual exclusion of sessions and interleavings with other connections are not modelled; TLS not covered. The wrapper bypass of cmdToken/cmdKill/cmdConnections found by these obligations was fixed.",
   "DESIGN.md §4 C41"),
+ "C12": (
+  "Deductive proof, for all byte strings, of the composite-key encoding primitives of db19/index/ixkey: encode appends an escape image in which every zero byte is followed by a one (so a field contains no separator 0,0 and never ends in 0), preserves the buffer prefix and copies zero-free fields verbatim; Encode; Encoder.Add places the separator 0,0 exactly between fields; Encoder.String removes only trailing separators (an even number of zero bytes) and nothing else; HasPrefix is byte-wise prefix ending at a field boundary; SplitPrefixSuffix returns a prefix and a suffix of the key, the prefix without trailing separators, never indexing out of range; Cksize/Cklen panic exactly above the size limit. Loop invariants, frames, bounds and termination discharged.",
+  "Scope: the unambiguity half (escaping/separators/trimming/prefix tests). NOT covered yet: the order-preservation lemma (lexicographic order of keys = order of value tuples), Spec.Key/Spec.Compare (need Record.GetRaw), JoinPrefixSuffix, Decode1, TruncFunc, rangeEnd. Assumed: strings.IndexByte/HasSuffix/Contains, hacks.BStoS (unsafe, buffer not modified afterwards), fmt.Sprintf effect-free.",
+  "DESIGN.md §4 C12"),
 }
 
 NA = {
